@@ -36,6 +36,8 @@ def configs(tier):
         for n in ns:
             for method in ('cycles', 'amp'):
                 out.append({'rows': rows, 'n': n, 'method': method})
+    # both analyses share one find_extrema_kwargs dictionary (the natural way to write the comparison)
+    out.append({'rows': 1, 'n': 5, 'method': 'cycles', 'shared_options': True})
     return out
 
 
@@ -95,11 +97,12 @@ def run(ctx, cfg):
         return pd.DataFrame({c: list(v) for c, v in table.items()})
     saved = sh.compute_cyclepoints
     sh.compute_cyclepoints = fake_cp
+    fek = {'filter_kwargs': {'n_cycles': 3}, 'boundary': 0} if cfg.get('shared_options') else None
     try:
         t_tab = ff.compute_features(np.array(list(x), dtype=float), 500.0, (8.0, 12.0), center_extrema='trough',
-                                    burst_method=method, threshold_kwargs=thresholds_for(method))
+                                    burst_method=method, threshold_kwargs=thresholds_for(method), find_extrema_kwargs=fek)
         p_tab = ff.compute_features(np.array([-v for v in x], dtype=float), 500.0, (8.0, 12.0), center_extrema='peak',
-                                    burst_method=method, threshold_kwargs=thresholds_for(method))
+                                    burst_method=method, threshold_kwargs=thresholds_for(method), find_extrema_kwargs=fek)
     except Exception as e:
         ctx.fail(exc_label(e))
         return
